@@ -4,7 +4,7 @@
   Modelled Go code (names as in /repo):
     lib/pkcs7/verify.go      SignedData.Verify(externalContent, skipDigests), SignerInfo.Verify,
                              SignerInfo.FindCertificate, Signature.VerifyChain (abstract `chainOK`, from Model.Tsa)
-    lib/pkcs7/attributes.go  AttributeList.GetOne (for messageDigest), AuthenticatedAttributesBytes (the digested
+    lib/pkcs7/attributes.go  AttributeList.GetOne (for messageDigest and, since fix F31, contentType), AuthenticatedAttributesBytes (the digested
                              bytes are a *field* here; `Relic.Der.authAttrBytes` of C16 computes it from the encoding)
     lib/pkcs7/content.go     ContentInfo.Bytes (embedded content, `none` = detached)
     lib/x509tools/pkix.go    PkixDigestToHashE, PkixVerify (sigAlgInfos lookup, digest/key type checks)
@@ -135,6 +135,40 @@ def getMessageDigest (l : List Attr) : Res Bytes :=
     | .panic s => .panic s
     | .diverge => .diverge
 
+/-! ### `AttributeList.GetOne(OidAttributeContentType, &ctype)` with `ctype asn1.ObjectIdentifier` (fix F31) -/
+
+/-- `parseBase128Int` applied arc by arc, as `parseObjectIdentifier` does: at most five octets per arc, no arc
+    starts with 0x80, value at most `MaxInt32`, the last arc terminated.  `n`: octets of the current arc so far. -/
+def oidArcsOK : Bytes → Nat → Nat → Bool
+  | [], n, _ => n == 0
+  | b :: rest, n, acc =>
+    if n == 5 then false
+    else if n == 0 && b == 0x80 then false
+    else
+      let acc' := acc * 128 + b.toNat % 128
+      if b.toNat ≥ 128 then oidArcsOK rest (n + 1) acc'
+      else if acc' > 2147483647 then false
+      else oidArcsOK rest 0 0
+
+/-- the content octets parse as an OBJECT IDENTIFIER (then the octets determine the value and vice versa) -/
+def oidOK (b : Bytes) : Bool := !b.isEmpty && oidArcsOK b 0 0
+
+/-- first attribute with the contentType OID; its value set must hold exactly one element, an OBJECT IDENTIFIER;
+    the result is its content octets -/
+def getContentType (l : List Attr) : Res Bytes :=
+  match l.find? (fun a => a.oid == oidContentType) with
+  | none => .err "no-ct-attr"
+  | some a =>
+    match untlv a.values.bytes with
+    | .ok (t, c, rest) =>
+      if t ≠ 0x06 then .err "attr-asn1"
+      else if oidOK c = false then .err "attr-asn1"
+      else if rest ≠ [] then .err "attr-multiple"
+      else .ok c
+    | .err _ => .err "attr-asn1"
+    | .panic s => .panic s
+    | .diverge => .diverge
+
 /-! ### `SignerInfo.FindCertificate` -/
 
 def findCert {C : Crypto} (certs : List (Cert C)) (issuer serial : Bytes) : Option (Cert C) :=
@@ -188,25 +222,68 @@ def resolveContent (emb ext : Option Bytes) : Res Bytes :=
   | some c, none => .ok c
   | some c, some e => if e = c then .ok c else .err "content-mismatch"
 
-/-- the loop over the signer infos: every one is verified, the last one is reported -/
-def verifyAll {C : Crypto} (H : Alg → Bytes → Bytes) (content : Bytes) (skip : Bool) (certs : List (Cert C)) (bad : Bool) :
+/-- fix F31, inside the loop of `SignedData.Verify` right after `si.Verify` succeeded: with authenticated
+    attributes present, a contentType attribute must exist and equal the eContentType `ct` -/
+def ctypeStage {C : Crypto} (ct : Bytes) (si : SignerInfo C) : Res Unit :=
+  match si.attrs.getD [] with
+  | [] => .ok ()
+  | a :: l =>
+    match getContentType (a :: l) with
+    | .ok o => if o = ct then .ok () else .err "ctype-mismatch"
+    | .err e => .err e
+    | .panic s => .panic s
+    | .diverge => .diverge
+
+/-- one iteration of the loop: `si.Verify`, then the contentType comparison.  `ct = none` is the code before the
+    fix (no comparison). -/
+def verifyOne {C : Crypto} (H : Alg → Bytes → Bytes) (ct : Option Bytes) (content : Bytes) (skip : Bool)
+    (certs : List (Cert C)) (si : SignerInfo C) : Res (Cert C) :=
+  match verifySignerInfo H content skip certs si with
+  | .ok cert =>
+    match ct with
+    | none => .ok cert
+    | some t =>
+      match ctypeStage t si with
+      | .ok _ => .ok cert
+      | .err e => .err e
+      | .panic s => .panic s
+      | .diverge => .diverge
+  | .err e => .err e
+  | .panic s => .panic s
+  | .diverge => .diverge
+
+/-- the loop over the signer infos: every one is verified, the last one is reported.  (A missing certificate is
+    reported as the saved certificate parse error; the contentType errors never have that class.) -/
+def verifyAll {C : Crypto} (H : Alg → Bytes → Bytes) (ct : Option Bytes) (content : Bytes) (skip : Bool)
+    (certs : List (Cert C)) (bad : Bool) :
     List (SignerInfo C) → Option (Cert C × SignerInfo C) → Res (Cert C × SignerInfo C)
   | [], none => .err "not-signed"
   | [], some p => .ok p
   | si :: rest, _ =>
-    match verifySignerInfo H content skip certs si with
-    | .ok cert => verifyAll H content skip certs bad rest (some (cert, si))
+    match verifyOne H ct content skip certs si with
+    | .ok cert => verifyAll H ct content skip certs bad rest (some (cert, si))
     | .err e => .err (if e = "no-cert" ∧ bad = true then "cert-parse" else e)
     | .panic s => .panic s
     | .diverge => .diverge
 
-def verifySignedData {C : Crypto} (H : Alg → Bytes → Bytes) (sd : SignedData C) (ext : Option Bytes) (skip : Bool) :
-    Res (Cert C × SignerInfo C) :=
+/-- `SignedData.Verify`, parameterised by the comparison value of the contentType check -/
+def verifySignedDataWith {C : Crypto} (H : Alg → Bytes → Bytes) (ct : Option Bytes) (sd : SignedData C) (ext : Option Bytes)
+    (skip : Bool) : Res (Cert C × SignerInfo C) :=
   match (if skip then (.ok [] : Res Bytes) else resolveContent sd.content ext) with
-  | .ok content => verifyAll H content skip sd.certs sd.badCerts sd.signers none
+  | .ok content => verifyAll H ct content skip sd.certs sd.badCerts sd.signers none
   | .err e => .err e
   | .panic s => .panic s
   | .diverge => .diverge
+
+/-- `SignedData.Verify` as it is now (fix F31 applied) -/
+def verifySignedData {C : Crypto} (H : Alg → Bytes → Bytes) (sd : SignedData C) (ext : Option Bytes) (skip : Bool) :
+    Res (Cert C × SignerInfo C) :=
+  verifySignedDataWith H (some sd.contentType) sd ext skip
+
+/-- `SignedData.Verify` before fix F31: the eContentType is never looked at -/
+def verifySignedDataOrig {C : Crypto} (H : Alg → Bytes → Bytes) (sd : SignedData C) (ext : Option Bytes) (skip : Bool) :
+    Res (Cert C × SignerInfo C) :=
+  verifySignedDataWith H none sd ext skip
 
 /-- `Verify` then `VerifyOptionalTimestamp` (result `cs`, modelled in `Relic.Tsa`) then
     `TimestampedSignature.VerifyChain`: the chain part is `Tsa.verifyChain` on the returned certificate -/
